@@ -14,11 +14,13 @@ package objectdeployments
 //          of which revisionReconciler is the first sub-reconciler; the controller persists
 //          status itself)
 //
-// everything else (template edits, pause, archive, garbage collection, a foreign ObjectSet
-// squatting on the next name, API faults, the create-not-yet-visible cache window) is
-// environment.  After every operation the harness prints the ObjectSet create requests the
-// controller issued, the collision counter, status.templateHash and every ObjectSet with its
-// status.revision, all taken from the store (the truth), not from what the controller saw.
+// everything else (template edits, changes of spec.revisionHistoryLimit, pause, archive, garbage
+// collection, a foreign ObjectSet squatting on the next name, API faults, the create-not-yet-visible
+// cache window) is environment.  What the pass's own archiveReconciler archives / garbage collects
+// (beyond spec.revisionHistoryLimit) is reported as separate `arch` / `del` steps right after the pass.
+// After every operation the harness prints the ObjectSet create requests the controller issued, the
+// collision counter, status.templateHash and every ObjectSet with its status.revision, all taken from
+// the store (the truth), not from what the controller saw.
 
 import (
 	"context"
@@ -51,10 +53,10 @@ import (
 // ---------------------------------------------------------------- scenario
 
 type c07Op struct {
-	Op    string `json:"op"`    // edit | pause | od | os | arch | del | squat | restart
-	K     int    `json:"k"`     // edit: template variant (0 = template without phases)
+	Op    string `json:"op"`    // edit | pause | od | os | arch | del | squat | restart | limit
+	K     int    `json:"k"`     // edit: template variant (0 = template without phases); limit: 0 = unset, n+1 = n
 	B     bool   `json:"b"`     // pause: value
-	I     int    `json:"i"`     // os/arch/del: index into the ObjectSets in creation order
+	I     int    `json:"i"`     // os/arch/del: index into the ObjectSets in creation order; 100+j = j-th newest
 	Fault string `json:"fault"` // od: none | fail (create fails before effect) | lose (create takes effect, response lost)
 	Hide  string `json:"hide"`  // od: no | list (own unobserved creates missing from List) | both (missing from List and Get)
 	SFail bool   `json:"sfail"` // od: the final ObjectDeployment status update fails
@@ -64,18 +66,32 @@ type c07Op struct {
 	Spec  int    `json:"spec"`  // squat: template variant of its spec
 	Rev   int    `json:"rev"`   // squat: status.revision
 	P     int    `json:"p"`     // squat: 0 = no previous, k+1 = spec.previous names the ObjectSet at index k
-	// Auto marks an `arch` step that was not an input: the preceding pass of the real
-	// ObjectDeployment controller archived that ObjectSet itself (archiveReconciler, the last
-	// sub-reconciler of the pass).  The harness reports such writes as separate steps right after
-	// the pass; auto steps in an input scenario are dropped and re-derived.
+	// Auto marks an `arch` / `del` step that was not an input: the preceding pass of the real
+	// ObjectDeployment controller archived / garbage collected that ObjectSet itself
+	// (archiveReconciler, the last sub-reconciler of the pass; it deletes the oldest revisions beyond
+	// spec.revisionHistoryLimit whenever it archives something).  The harness reports such writes as
+	// separate steps right after the pass; auto steps in an input scenario are dropped and re-derived.
 	Auto bool `json:"auto"`
+	// AFail marks an `od` step whose archiveReconciler failed (derived like Auto, never an input): with a
+	// small spec.revisionHistoryLimit the garbage collection that runs after every single archival deletes
+	// revisions the same loop is about to archive, the next Update then answers Conflict / NotFound and the
+	// pass ends with that error before the ObjectDeployment status update.  For the hash / objectSet /
+	// newRevision part of the pass (what C07 is about) that is one more way the status update can be lost.
+	AFail bool `json:"afail"`
 }
 
 type c07Scn struct {
 	Fl   string  `json:"fl"`   // ns | cl
 	Init int     `json:"init"` // initial template variant
+	Lim  int     `json:"lim"`  // initial spec.revisionHistoryLimit: 0 = unset (default 10 applies), n+1 = n
 	Ops  []c07Op `json:"ops"`
 }
+
+// c07Limits: the values of spec.revisionHistoryLimit the histories use (encoded: 0 = unset, n+1 = n):
+// unset, 0 ("keep no old revisions"), 1, 2, large.
+var c07Limits = []int{0, 1, 2, 3, 1001}
+
+const c07Rel = 100 // os/arch/del index base for "j-th newest ObjectSet"
 
 const (
 	c07MaxVariant = 6
@@ -152,7 +168,18 @@ type c07World struct {
 	fault   string
 	sfail   bool
 	mask    map[string]bool // ObjectSets archived by the current pass, not yet reported as a step
-	auto    []int           // indices (creation order) archived by the last pass
+	auto    []c07Auto       // what the last pass's archiveReconciler wrote, in the order it is reported
+	extra   map[string]bool // tags derived while executing
+	afail   bool            // the last pass's archiveReconciler failed after its garbage collection
+	// ObjectSets the current pass's garbage collection removed outright (an archived revision that was
+	// torn down by its controller carries no finalizer any more), as they were right before: the pass
+	// itself is reported with them still there, the removal as the `del` step right after it.
+	ghost map[string]*unstructured.Unstructured
+}
+
+type c07Auto struct {
+	op   string // arch | del
+	name string
 }
 
 func c07Scheme() *runtime.Scheme {
@@ -222,9 +249,9 @@ func (w *c07World) build() {
 	}
 }
 
-func c07NewWorld(scheme *runtime.Scheme, cluster bool, init int) *c07World {
+func c07NewWorld(scheme *runtime.Scheme, cluster bool, init, lim int) *c07World {
 	w := &c07World{cluster: cluster, scheme: scheme, store: verifstore.New(scheme),
-		cl: &c07Client{hide: "no", unseen: map[string]bool{}}, hashes: map[string][2]int{}}
+		cl: &c07Client{hide: "no", unseen: map[string]bool{}}, hashes: map[string][2]int{}, extra: map[string]bool{}}
 	for _, k := range []string{"ObjectSet", "ObjectSetPhase", "ObjectSlice", "ObjectDeployment"} {
 		w.store.RegisterKind(schema.GroupKind{Group: c07Group, Kind: k}, true)
 		w.store.RegisterKind(schema.GroupKind{Group: c07Group, Kind: "Cluster" + k}, false)
@@ -233,9 +260,7 @@ func c07NewWorld(scheme *runtime.Scheme, cluster bool, init int) *c07World {
 	if cluster {
 		w.odKind, w.osKind, w.ns = "ClusterObjectDeployment", "ClusterObjectSet", ""
 	}
-	limit := int32(1000) // garbage collection of revisions is an environment operation (`del`) here
 	spec := corev1alpha1.ObjectDeploymentSpec{
-		RevisionHistoryLimit: &limit,
 		Selector: metav1.LabelSelector{MatchLabels: map[string]string{"app": "c07"}},
 		Template: c07Template(init),
 	}
@@ -278,6 +303,7 @@ func c07NewWorld(scheme *runtime.Scheme, cluster bool, init int) *c07World {
 	}
 	c07HashCache[cluster] = w.hashes
 	w.setTemplate(init)
+	w.setLimit(lim)
 	w.store.Log = nil
 	w.store.InjectFault = func(r *verifstore.Request) verifstore.Fault {
 		if r.Verb == "create" && r.Key.Kind == w.osKind {
@@ -310,6 +336,47 @@ func (w *c07World) setTemplate(k int) {
 			panic(err)
 		}
 	})
+}
+
+// setLimit is the user setting spec.revisionHistoryLimit (enc 0 = remove the field, n+1 = n).
+func (w *c07World) setLimit(enc int) {
+	w.store.Mutate(w.odKey(), func(u *unstructured.Unstructured) {
+		if enc <= 0 {
+			unstructured.RemoveNestedField(u.Object, "spec", "revisionHistoryLimit")
+			return
+		}
+		if err := unstructured.SetNestedField(u.Object, int64(enc-1), "spec", "revisionHistoryLimit"); err != nil {
+			panic(err)
+		}
+	})
+}
+
+// limit returns the effective history limit (the archiver's default when the field is unset).
+func (w *c07World) limit() int {
+	u := w.store.Peek(w.odKey())
+	n, ok, _ := unstructured.NestedInt64(u.Object, "spec", "revisionHistoryLimit")
+	if !ok {
+		return int(defaultRevisionLimit)
+	}
+	return int(n)
+}
+
+func (w *c07World) memberCount() int {
+	n := 0
+	for _, o := range w.order {
+		if w.view(o.name).member {
+			n++
+		}
+	}
+	return n
+}
+
+// index resolves an os/arch/del index: absolute (creation order) or 100+j = j-th newest.
+func (w *c07World) index(i int) int {
+	if i >= c07Rel {
+		return len(w.order) - 1 - (i - c07Rel) // negative = out of range
+	}
+	return i
 }
 
 func (w *c07World) template() int {
@@ -359,6 +426,9 @@ type c07View struct {
 
 func (w *c07World) view(name string) c07View {
 	u := w.store.Peek(w.osKey(name))
+	if u == nil {
+		u = w.ghost[name]
+	}
 	if u == nil {
 		return c07View{}
 	}
@@ -440,6 +510,11 @@ func (w *c07World) step(op c07Op) string {
 				unstructured.RemoveNestedField(u.Object, "spec", "paused")
 			}
 		})
+	case "limit":
+		if op.K < 0 {
+			break
+		}
+		w.setLimit(op.K)
 	case "restart":
 		w.build() // controllers keep no state between passes: new instances behave the same
 	case "od":
@@ -450,6 +525,7 @@ func (w *c07World) step(op c07Op) string {
 		}
 		w.cl.hide, w.fault, w.sfail = hide, op.Fault, op.SFail
 		start := len(w.store.Log)
+		existing := w.memberCount()
 		_, err := w.odc.Reconcile(ctx, ctrl.Request{NamespacedName: types.NamespacedName{Namespace: w.ns, Name: "od"}})
 		w.cl.hide, w.fault, w.sfail = "no", "", false
 		res = c07ErrClass(err)
@@ -484,10 +560,15 @@ func (w *c07World) step(op c07Op) string {
 				w.order = append(w.order, c07Set{serial: w.next, name: r.Key.Name})
 				w.next++
 				w.cl.unseen[r.Key.Name] = true
+				if existing > w.limit() {
+					w.extra["create-over-limit"] = true // more ObjectSets exist than spec.revisionHistoryLimit
+				}
+				w.extra[fmt.Sprintf("create-existing:%d", c07Min(existing, 6))] = true
 			}
 		}
 		reqs = strings.Join(rs, ",")
-		// what the pass's archiveReconciler wrote (reported as separate `arch` steps)
+		// what the pass's archiveReconciler wrote (reported as separate `arch` / `del` steps)
+		var gc []c07Auto
 		for _, r := range w.store.Log[start:] {
 			if r.Key.Kind != w.osKind || r.Err != "" {
 				continue
@@ -501,22 +582,54 @@ func (w *c07World) step(op c07Op) string {
 				a, _, _ := unstructured.NestedString(r.After.Object, "spec", "lifecycleState")
 				arch := string(corev1alpha1.ObjectSetLifecycleStateArchived)
 				if a == arch && b != arch {
-					for i, o := range w.order {
+					for _, o := range w.order {
 						if o.name == r.Key.Name {
-							w.auto = append(w.auto, i)
+							w.auto = append(w.auto, c07Auto{"arch", o.name})
 							w.mask[o.name] = true
 						}
 					}
 				}
 			case "delete":
-				res += "+GC" // revisionHistoryLimit is set high: must not happen
+				// garbageCollectRevisions: revisions beyond spec.revisionHistoryLimit, oldest first.  A live
+				// ObjectSet that was reconciled by its controller carries a finalizer, so the request only
+				// marks it (deletionTimestamp) and the removal is completed by the `del` step reported right
+				// after the pass; an archived, torn down one is gone at once (kept as a ghost until that
+				// step).  (The same revision is requested again for every ObjectSet the pass archives:
+				// reported once.)
+				if r.Removed && r.Before != nil {
+					w.ghost[r.Key.Name] = r.Before
+				}
+				dup := false
+				for _, g := range gc {
+					dup = dup || g.name == r.Key.Name
+				}
+				if !dup && (w.store.Peek(w.osKey(r.Key.Name)) != nil || w.ghost[r.Key.Name] != nil) {
+					gc = append(gc, c07Auto{"del", r.Key.Name})
+				}
+			}
+		}
+		w.auto = append(w.auto, gc...)
+		if err != nil && !errors.Is(err, errC07Injected) {
+			deleted := false
+			for _, r := range w.store.Log[start:] {
+				if r.Key.Kind != w.osKind {
+					continue
+				}
+				if r.Verb == "delete" && r.Err == "" {
+					deleted = true
+				}
+				if r.Verb == "update" && r.Err != "" && deleted {
+					w.afail = true
+					res = "e:arch"
+				}
 			}
 		}
 	case "os":
-		if op.I < 0 || op.I >= len(w.order) {
+		i := w.index(op.I)
+		if i < 0 || i >= len(w.order) {
 			break
 		}
-		r, err := w.osc.Reconcile(ctx, ctrl.Request{NamespacedName: types.NamespacedName{Namespace: w.ns, Name: w.order[op.I].name}})
+		r, err := w.osc.Reconcile(ctx, ctrl.Request{NamespacedName: types.NamespacedName{Namespace: w.ns, Name: w.order[i].name}})
 		switch {
 		case err != nil:
 			res = "err"
@@ -526,10 +639,11 @@ func (w *c07World) step(op c07Op) string {
 			res = "ok"
 		}
 	case "arch":
-		if op.I < 0 || op.I >= len(w.order) {
+		i := w.index(op.I)
+		if i < 0 || i >= len(w.order) {
 			break
 		}
-		s := w.order[op.I]
+		s := w.order[i]
 		v := w.view(s.name)
 		// environment constraint (mirrors what PKO's own archiveReconciler can do): a member is
 		// archived only once it reports a revision and has been observed by the deployment
@@ -540,10 +654,11 @@ func (w *c07World) step(op c07Op) string {
 			_ = unstructured.SetNestedField(u.Object, string(corev1alpha1.ObjectSetLifecycleStateArchived), "spec", "lifecycleState")
 		})
 	case "del":
-		if op.I < 0 || op.I >= len(w.order) {
+		i := w.index(op.I)
+		if i < 0 || i >= len(w.order) {
 			break
 		}
-		s := w.order[op.I]
+		s := w.order[i]
 		v := w.view(s.name)
 		if v.member {
 			// environment constraint (mirrors garbageCollectRevisions): revisions are deleted only
@@ -565,10 +680,7 @@ func (w *c07World) step(op c07Op) string {
 				break
 			}
 		}
-		w.store.Mutate(w.osKey(s.name), func(u *unstructured.Unstructured) { u.SetFinalizers(nil) })
-		w.store.Remove(w.osKey(s.name))
-		w.order = append(w.order[:op.I:op.I], w.order[op.I+1:]...)
-		delete(w.cl.unseen, s.name)
+		w.remove(i)
 	case "squat":
 		if op.D < 0 || op.Spec < 0 || op.Spec > c07MaxVariant || op.Rev < 0 || op.P < 0 {
 			break
@@ -604,13 +716,24 @@ func (w *c07World) step(op c07Op) string {
 	return res + " C[" + reqs + "]"
 }
 
-// c07Exec runs a history and returns the scenario as executed (auto steps re-derived) with its trace.
-func c07Exec(scheme *runtime.Scheme, s c07Scn) (c07Scn, string) {
-	ran := c07Scn{Fl: s.Fl, Init: s.Init, Ops: []c07Op{}}
-	if s.Init < 0 || s.Init > c07MaxVariant {
-		return s, "BAD-SCN"
+// remove takes the ObjectSet at index i (creation order) out of the API: finalizers dropped, object gone.
+func (w *c07World) remove(i int) {
+	s := w.order[i]
+	w.store.Mutate(w.osKey(s.name), func(u *unstructured.Unstructured) { u.SetFinalizers(nil) })
+	w.store.Remove(w.osKey(s.name))
+	w.order = append(w.order[:i:i], w.order[i+1:]...)
+	delete(w.cl.unseen, s.name)
+	delete(w.ghost, s.name)
+}
+
+// c07Exec runs a history and returns the scenario as executed (auto steps re-derived) with its trace
+// and the tags derived while executing.
+func c07Exec(scheme *runtime.Scheme, s c07Scn) (c07Scn, string, []string) {
+	ran := c07Scn{Fl: s.Fl, Init: s.Init, Lim: s.Lim, Ops: []c07Op{}}
+	if s.Init < 0 || s.Init > c07MaxVariant || s.Lim < 0 {
+		return s, "BAD-SCN", nil
 	}
-	w := c07NewWorld(scheme, s.Fl == "cl", s.Init)
+	w := c07NewWorld(scheme, s.Fl == "cl", s.Init, s.Lim)
 	var outs []string
 	state := func() string {
 		u := w.store.Peek(w.odKey())
@@ -621,31 +744,74 @@ func c07Exec(scheme *runtime.Scheme, s c07Scn) (c07Scn, string) {
 		if op.Auto {
 			continue
 		}
+		op.AFail = false
 		ran.Ops = append(ran.Ops, op)
 		if w.cc() >= c07MaxCC-2 {
 			outs = append(outs, "CC-LIMIT")
 			break
 		}
-		w.mask, w.auto = map[string]bool{}, nil
+		w.mask, w.auto, w.ghost = map[string]bool{}, nil, map[string]*unstructured.Unstructured{}
+		w.afail = false
 		o := w.step(op)
+		if w.afail {
+			ran.Ops[len(ran.Ops)-1].AFail = true
+			w.extra["archiver-failed-after-gc"] = true
+		}
 		outs = append(outs, o+" "+state())
-		for _, i := range w.auto {
-			delete(w.mask, w.order[i].name)
-			ran.Ops = append(ran.Ops, c07Op{Op: "arch", I: i, Fault: "none", Hide: "no", Auto: true})
+		for _, a := range w.auto {
+			i := -1
+			for j, o := range w.order {
+				if o.name == a.name {
+					i = j
+				}
+			}
+			if i < 0 || i >= c07Rel {
+				outs = append(outs, "AUTO-STEP-LOST "+a.op)
+				continue
+			}
+			switch a.op {
+			case "arch":
+				delete(w.mask, a.name)
+			case "del":
+				w.remove(i) // completes what garbageCollectRevisions requested, whatever the environment guard says
+				w.extra["gc-by-pass"] = true
+			}
+			ran.Ops = append(ran.Ops, c07Op{Op: a.op, I: i, Fault: "none", Hide: "no", Auto: true})
 			outs = append(outs, "- C[] "+state())
 		}
 	}
-	return ran, strings.Join(outs, ";")
+	var extra []string
+	for t := range w.extra {
+		extra = append(extra, t)
+	}
+	return ran, strings.Join(outs, ";"), extra
 }
 
 // ---------------------------------------------------------------- generators
 
-func c07Tags(s c07Scn, out string) []string {
-	tags := map[string]bool{}
+func c07LimTag(enc int) string {
+	switch {
+	case enc <= 0:
+		return "nil"
+	case enc > 10:
+		return "big"
+	default:
+		return strconv.Itoa(enc - 1)
+	}
+}
+
+func c07Tags(s c07Scn, out string, extra []string) []string {
+	tags := map[string]bool{"lim:" + c07LimTag(s.Lim): true}
+	for _, t := range extra {
+		tags[t] = true
+	}
 	for _, op := range s.Ops {
 		tags["op:"+op.Op] = true
-		if op.Auto {
+		if op.Auto && op.Op == "arch" {
 			tags["archived-by-pass"] = true
+		}
+		if op.Op == "limit" {
+			tags["lim:"+c07LimTag(op.K)] = true
 		}
 		if op.Op == "od" {
 			tags["fault:"+op.Fault] = true
@@ -734,6 +900,9 @@ func c07RandomOp(r c07Rng, nsets int) c07Op {
 		op.I = r.Intn(nsets + 1)
 		if r.Intn(3) > 0 && nsets > 0 {
 			op.I = nsets - 1
+			if r.Intn(2) == 0 {
+				op.I = c07Rel // the newest ObjectSet, however many there are
+			}
 		}
 	case x < 78:
 		op.Op = "edit"
@@ -760,8 +929,11 @@ func c07RandomOp(r c07Rng, nsets int) c07Op {
 		if r.Intn(3) == 0 {
 			op.P = 1 + r.Intn(nsets+1)
 		}
-	default:
+	case x < 99:
 		op.Op = "restart"
+	default:
+		op.Op = "limit"
+		op.K = c07Limits[r.Intn(len(c07Limits))]
 	}
 	return op
 }
@@ -778,13 +950,14 @@ func TestVerifC07(t *testing.T) {
 		}
 		seen[string(b)] = true
 		ran := s
+		var extra []string
 		out := verifkit.Guard(func() string {
 			var o string
-			ran, o = c07Exec(scheme, s)
+			ran, o, extra = c07Exec(scheme, s)
 			return o
 		})
 		rb, _ := json.Marshal(ran)
-		r.Emit(string(rb), out, c07Tags(ran, out)...)
+		r.Emit(string(rb), out, c07Tags(ran, out, extra)...)
 	}
 	for _, line := range r.Fixed() {
 		var s c07Scn
@@ -853,6 +1026,58 @@ func TestVerifC07(t *testing.T) {
 		rec(p, d, "ns")
 	}
 	rec(prefixes[1], 2, "cl")
+	// 1b. spec.revisionHistoryLimit: for every limit value (unset, 0, 1, 2, large) a chain of n roll-outs
+	//     (pass creates the ObjectSet, its controller reports the revision, the template is edited again)
+	//     in which nothing is archived or garbage collected - so n ObjectSets exist, more than a small
+	//     limit allows, when the next one is created - followed by every sequence of length <= 2 over a
+	//     small alphabet (passes with every cache view, the newest ObjectSet's controller, a further edit,
+	//     a change of the limit, archival / garbage collection of the oldest revision).  The `dance`
+	//     variant lets the real archiveReconciler act after every roll-out (pause the old revision, its
+	//     controller reports Paused, the next pass archives it and garbage collects beyond the limit).
+	lim := func(enc int) c07Op { o := plain("limit"); o.K = enc; return o }
+	rel := func(o string, j int) c07Op { x := plain(o); x.I = c07Rel + j; return x }
+	chain := func(n int, dance bool) []c07Op {
+		var ops []c07Op
+		for j := 0; j < n; j++ {
+			ops = append(ops, od("none", "no"), rel("os", 0))
+			if dance && j > 0 {
+				ops = append(ops, od("none", "no"), rel("os", 1), od("none", "no"))
+			}
+			ops = append(ops, edit(1+(j+1)%c07MaxVariant))
+		}
+		return ops
+	}
+	{
+		tail := []c07Op{
+			od("none", "no"), od("none", "list"), od("lose", "both"), rel("os", 0), rel("os", 1), edit(6), edit(1),
+			lim(1), lim(0), lim(3), plain("arch"), plain("del"),
+		}
+		for _, enc := range c07Limits {
+			for n := 1; n <= r.Pick(4, 6); n++ {
+				for _, dance := range []bool{false, true} {
+					if dance && n < 2 {
+						continue
+					}
+					fl := "ns"
+					if n == 3 {
+						fl = "cl"
+					}
+					base := chain(n, dance)
+					run(c07Scn{Fl: fl, Init: 1, Lim: enc, Ops: base})
+					d2 := !dance && n <= r.Pick(3, 5)
+					for _, a := range tail {
+						one := append(append([]c07Op{}, base...), a)
+						run(c07Scn{Fl: fl, Init: 1, Lim: enc, Ops: one})
+						for _, b := range tail {
+							if d2 {
+								run(c07Scn{Fl: fl, Init: 1, Lim: enc, Ops: append(append([]c07Op{}, one...), b)})
+							}
+						}
+					}
+				}
+			}
+		}
+	}
 	// 2. random histories
 	n := r.Pick(2500, 30000)
 	for i := 0; i < n; i++ {
@@ -860,9 +1085,49 @@ func TestVerifC07(t *testing.T) {
 		if r.Rng.Intn(5) == 0 {
 			s.Fl = "cl"
 		}
+		if r.Rng.Intn(2) == 0 {
+			s.Lim = c07Limits[r.Rng.Intn(len(c07Limits))]
+		}
 		l := 4 + r.Rng.Intn(r.Pick(28, 60))
 		nsets := 0
-		if r.Rng.Intn(3) == 0 {
+		pre := r.Rng.Intn(3)
+		if pre == 1 {
+			// roll-out prelude: 2..6 templates rolled out in a row (roll-backs to earlier variants included:
+			// the first pass after one bumps the counter, the second creates), every revision reported, the
+			// real archiver acting or not after a roll-out, nothing garbage collected by the environment;
+			// passes disturbed now and then, the limit changed now and then.  The random history continues
+			// from a deployment with several live revisions.
+			m := 2 + r.Rng.Intn(5)
+			s.Init = 1 + r.Rng.Intn(3)
+			cur := s.Init
+			for j := 0; j < m; j++ {
+				p := od("none", "no")
+				if r.Rng.Intn(6) == 0 {
+					p = c07RandomOp(r.Rng, nsets)
+					for p.Op != "od" {
+						p = c07RandomOp(r.Rng, nsets)
+					}
+				}
+				s.Ops = append(s.Ops, p, od("none", "no"), rel("os", 0))
+				if r.Rng.Intn(4) == 0 {
+					s.Ops = append(s.Ops, od("none", "no"), rel("os", 1), od("none", "no"))
+				}
+				if r.Rng.Intn(6) == 0 {
+					s.Ops = append(s.Ops, lim(c07Limits[r.Rng.Intn(len(c07Limits))]))
+				}
+				k := 1 + r.Rng.Intn(4)
+				for k == cur {
+					k = 1 + r.Rng.Intn(4)
+				}
+				cur = k
+				s.Ops = append(s.Ops, edit(k))
+			}
+			nsets = c07Min(m, 6)
+			if l -= len(s.Ops) / 2; l < 4 { // keep the history's total length (and the run time) in the usual range
+				l = 4
+			}
+		}
+		if pre == 0 {
 			// roll-back prelude: template A rolled out, edited to B, reverted to A - with A's ObjectSet
 			// archived in between or still live, B's ObjectSet with or without its revision number, the
 			// passes of the roll-out disturbed or not; the random history continues from there.
